@@ -95,6 +95,7 @@ type DR struct {
 	Host   string
 	Export []string
 	Ctime  int
+	TP     bool // has a top-level trafficPolicy (connection pool limit = its own number)
 }
 
 type World struct {
@@ -241,16 +242,21 @@ func (s Sidecar) real() config.Config {
 }
 
 func (d DR) real() config.Config {
+	spec := &networking.DestinationRule{Host: d.Host, ExportTo: append([]string{}, d.Export...),
+		Subsets: []*networking.Subset{{Name: fmt.Sprintf("sub%d", d.Name), Labels: map[string]string{"v": fmt.Sprint(d.Name)}}}}
+	if d.TP {
+		spec.TrafficPolicy = &networking.TrafficPolicy{ConnectionPool: &networking.ConnectionPoolSettings{
+			Http: &networking.ConnectionPoolSettings_HTTPSettings{Http1MaxPendingRequests: int32(d.Name)}}}
+	}
 	return config.Config{
 		Meta: config.Meta{GroupVersionKind: gvk.DestinationRule, Name: fmt.Sprintf("dr%d", d.Name), Namespace: d.Ns,
 			CreationTimestamp: time.Unix(int64(4000+d.Ctime), 0)},
-		Spec: &networking.DestinationRule{Host: d.Host, ExportTo: append([]string{}, d.Export...),
-			Subsets: []*networking.Subset{{Name: fmt.Sprintf("sub%d", d.Name), Labels: map[string]string{"v": fmt.Sprint(d.Name)}}}},
+		Spec: spec,
 	}
 }
 
 func (d DR) term() string {
-	return vlib.App("mkDr", vlib.NI(d.Name), vlib.Str(d.Ns), vlib.Str(d.Host), strs(d.Export), vlib.NI(d.Ctime))
+	return vlib.App("mkDr", vlib.NI(d.Name), vlib.Str(d.Ns), vlib.Str(d.Host), strs(d.Export), vlib.NI(d.Ctime), vlib.B(d.TP))
 }
 
 func kvMap(kvs []string) map[string]string {
